@@ -98,6 +98,18 @@ def run(tier, seed, replay=None):
                 mid = ("A", ba, [inner] if shape != 2 else [("W", 1, inner)])     # shape 2: BoxA<out BoxB<T1>>
                 p2 = ("V", deep_cid * 10 + 1, 0, mid)
                 tab[deep_cid] = ([p1, p2], [])
+            fan_cid = None
+            if rng.random() < 0.4:
+                # one variable bounds several later parameters:  K<T1, T2 : Box<T1> | T1, T3 : T1, T4 : T1>; the caller asks for
+                # one of the dependents that is not the last one
+                bx = max(tab) + 1
+                fan_cid = max(tab) + 2
+                tab[bx] = ([("V", bx * 10, 0, None)], [])
+                q1 = ("V", fan_cid * 10, 0, None)
+                q2 = ("V", fan_cid * 10 + 1, 0, ("A", bx, [q1]) if rng.random() < 0.6 else q1)
+                q3 = ("V", fan_cid * 10 + 2, 0, q1)
+                q4 = ("V", fan_cid * 10 + 3, 0, q1)
+                tab[fan_cid] = ([q1, q2, q3, q4], [])
             b = T.Builder(L, tab)
             pool, decls = mk_pool(L, b, tab)
             gens = [c for c in tab if tab[c][0]]
@@ -108,6 +120,8 @@ def run(tier, seed, replay=None):
                 c = chain_cid if (chain_cid is not None and rng.random() < 0.3) else rng.choice(gens)
                 if deep_cid is not None and rng.random() < 0.35:
                     c = deep_cid
+                if fan_cid is not None and rng.random() < 0.3:
+                    c = fan_cid
                 con = decls[c].get_type()
                 params = con.type_parameters
                 cfg.dis.use_site_variance = rng.random() < 0.25
@@ -115,10 +129,13 @@ def run(tier, seed, replay=None):
                 mode = rng.choice(["class", "class", "function"])
                 pre = None
                 nums_ = [t for t in L.builtin_terms(prims=False) if L.info[t[1]]["name"] == "NumberType"]
-                if c == chain_cid and nums_ and rng.random() < 0.7:
+                if c == fan_cid and c is not None and nums_:
+                    pre = {params[2]: b.obj(rng.choice(nums_ + [t for t in L.builtin_terms(prims=False)
+                                                                   if L.info[t[1]]["name"] in ("StringType", "BooleanType")][:2]))}
+                elif c == chain_cid and nums_ and rng.random() < 0.7:
                     # only the LAST parameter of the chain is requested: the helper has to make T2 and T1 follow
                     pre = {params[2]: b.obj(nums_[0])}
-                elif c != chain_cid and rng.random() < 0.4:
+                elif c != chain_cid and c != fan_cid and rng.random() < 0.4:
                     # a pre-assignment that is consistent with the bounds by construction
                     pre = {}
                     for p in params:
@@ -131,6 +148,11 @@ def run(tier, seed, replay=None):
                                     cand = tp.substitute_type(p.bound, pre)
                                 except Exception:       # noqa: BLE001
                                     continue
+                                top_ = cand
+                                while top_ is not None and top_.is_type_var() and top_.bound is not None:
+                                    top_ = top_.bound       # T3 : T2 : Box<Any> -- the end of the chain decides what is consistent
+                                if cand.is_type_var() and top_ is not None and not top_.is_type_var():
+                                    cand = top_
                                 if cand.is_type_var() and rng.random() < 0.6 and not any(
                                         q in pre for q in params):
                                     # T3 : T2 with T2 not assigned: any ground type is consistent, the helper
